@@ -316,8 +316,7 @@ def run(ctx):
                 continue
             judge_doc(ctx, srv, f, g, text, conf, opened)
             opened = True
-            if i < 2:
-                ctx.sample({"doc": text[:1200], "sites": g.sites[:8]})
+            ctx.sample({"doc": text[:1200], "sites": g.sites[:8]})
             ctx.count("documents")
     finally:
         un = srv.unanswered()
